@@ -125,6 +125,9 @@ Abort ==
     Sc("ab-own-status", pre \o << s3, ab >> \o next, << << PSpec(1, 1, 1, 1, 1) >>, <<>> >>, <<>>, TRUE, << ReadAllRet, ReadAllRet >>, << OwnStatus, Propagate >>),
     Sc("ab-not-reading", pre \o << s3, ab, s0 >> \o next, << << PSpec(1, 1, 1, 1, 1) >>, <<>> >>, <<>>, TRUE, << LazyProg, ReadAllRet >>, << Propagate, Propagate >>),
     Sc("ab-past-eos", pre \o << s3, s0, ab >> \o next, << << PSpec(1, 1, 1, 1, 1) >>, <<>> >>, <<>>, TRUE, << EchoProg, ReadAllRet >>, << Propagate, Propagate >>),
+    \* the abort arrives while close() is skipping the rest of a record the handler left unread
+    Sc("ab-during-close", pre \o << IStream(TStdin, Own, 9, 0), ab >> \o next, << << PSpec(1, 1, 1, 1, 1) >>, <<>> >>, <<>>, TRUE,
+       << << OpRead(2), OpRet(StOk("0")) >>, ReadAllRet >>, << Propagate, Propagate >>),
     Sc("ab-other-id", pre \o << s3, IAbort(Other, 0, 0), s0 >>, << << PSpec(1, 1, 1, 1, 1) >> >>, <<>>, TRUE, << EchoProg >>, << Propagate >>),
     Sc("ab-filter", PreItems(Own, 3, 1, 0) \o << s3, s0, IStream(TData, Own, 2, 0), ab >> \o next, << <<>>, <<>> >>, <<>>, TRUE, << FilterProg, ReadAllRet >>, << Propagate, Propagate >>)
   }
@@ -140,7 +143,12 @@ Reads ==
       P4 == << OpWriteable, OpFill, OpConsume(1), OpReadAll(1), OpWrite(TStderr, 2), OpRet(StOk("0")) >>
       P5 == << OpRead(2), OpFill, OpConsume(1), OpRead(64), OpRead(64), OpFill, OpSetStream(TData), OpRead(1), OpRet(StOk("0")) >>
       P6 == << OpSetStream(TStdin), OpFill, OpSetStream(TStdin), OpRead(2), OpSetStream(TData), OpSetStream(TData), OpFill, OpConsume(1), OpReadAll(2), OpRet(StOk("0")) >>
-  IN { Sc("rd-filter-1", fw, << <<>> >>, <<>>, TRUE, << P1 >>, << Propagate >>),
+      \* selecting the stream that is already active in the middle of a record changes nothing (direct and buffered reads)
+      P7 == << OpRead(1), OpSetStream(TStdin), OpReadAll(2), OpRet(StOk("0")) >>
+      P8 == << OpFill, OpConsume(1), OpSetStream(TStdin), OpFill, OpConsume(64), OpReadAll(2), OpRet(StOk("0")) >>
+  IN { Sc("rd-resp-7", rw, << <<>> >>, <<>>, TRUE, << P7 >>, << Propagate >>),
+       Sc("rd-filter-8", fw, << <<>> >>, <<>>, TRUE, << P8 >>, << Propagate >>),
+       Sc("rd-filter-1", fw, << <<>> >>, <<>>, TRUE, << P1 >>, << Propagate >>),
        Sc("rd-filter-2", fw, << <<>> >>, <<>>, TRUE, << P2 >>, << Propagate >>),
        Sc("rd-filter-3", fw, << <<>> >>, <<>>, TRUE, << P3 >>, << Propagate >>),
        Sc("rd-filter-4", fw, << <<>> >>, <<>>, TRUE, << P4 >>, << Propagate >>),
